@@ -2,6 +2,7 @@ import MechVerif.Driver.Value
 import MechVerif.Model.RunProgram
 import MechVerif.Model.Const
 import MechVerif.Model.ConstValue
+import MechVerif.Model.Compile
 namespace MechVerif.Driver.S06
 open MechVerif.RunProgram MechVerif.Const MechVerif.Bytecode
 
@@ -264,5 +265,67 @@ def runCdec (fields : List String) (obs : String) : String × String × String :
     | some q => (model, "bad:a constant written as " ++ q.1.1 ++ " was decoded as " ++ q.1.2 ++ ", its bytes say " ++ q.2, "-")
     | none => (model, "ok", "-")
   | _ => ("bad-case", "bad-case", "-")
+/-! ### class `plan`: the compiler's register allocation and instruction emission (Model/Compile.lean) -/
+section plan
+open MechVerif.Compile
+
+def pCls : String → Option OpClass
+  | "0" => some .null | "1" => some .un | "2" => some .bin | "3" => some .tern | "4" => some .quad | "v" => some .var
+  | _ => none
+
+def clsText : OpClass → String
+  | .null => "0" | .un => "1" | .bin => "2" | .tern => "3" | .quad => "4" | .var => "v"
+
+/-- `<class>:<out>:<arg>…` with the function id of the real instruction stream's operation of the same position -/
+def pStep (s : String) (fxn : Nat) : Option Step :=
+  match s.splitOn ":" with
+  | cls :: out :: args =>
+    (match pCls cls, out.toNat?, args.mapM String.toNat? with
+     | some c, some o, some as => some ⟨c, fxn, o, as⟩
+     | _, _, _ => none)
+  | _ => none
+
+def hexNat? (s : String) : Option Nat :=
+  if s.isEmpty then none else
+  s.toList.foldl (fun acc ch => acc.bind (fun n =>
+    if ch.isDigit then some (n * 16 + (ch.toNat - 48))
+    else if 'a' ≤ ch ∧ ch ≤ 'f' then some (n * 16 + (ch.toNat - 87)) else none)) (some 0)
+
+def hexOfNat (n : Nat) : String := String.ofList (Nat.toDigits 16 n)
+
+/-- the function ids of the operations of the real stream, in order -/
+def fxnIds (instrs : List String) : List Nat :=
+  instrs.filterMap (fun i => match i.splitOn ":" with
+    | "op" :: _ :: f :: _ => hexNat? f
+    | _ => none)
+
+def instrText : Compile.Instr → String
+  | .constLoad d c => s!"cl:{d}:{c}"
+  | .op cls f d args => "op:" ++ clsText cls ++ ":" ++ hexOfNat f ++ ":" ++ toString d ++ String.join (args.map (fun a => ":" ++ toString a))
+
+/-- the model compiles the plan the harness read from the step texts and must reproduce the register count, the constant
+    count and the instruction stream of the real compiler; the function ids are those of the real stream, position by position -/
+def runPlan (fields : List String) (obs : String) : String × String × String :=
+  let bad := ("bad-case", "bad-case", "-")
+  match fields with
+  | [_, _, _] =>
+    if obs.startsWith "skip:" then (obs, "ok", "-") else
+    (match obs.splitOn "|" with
+     | [sPart, _, iPart] =>
+       if !(sPart.startsWith "S=") || !(iPart.startsWith "I=") then bad else
+       let stepTexts := (sPart.drop 2).toString.splitOn ";"
+       let instrs := if iPart.length == 2 then [] else (iPart.drop 2).toString.splitOn ","
+       let ids := fxnIds instrs
+       let steps := (stepTexts.zipIdx).mapM (fun (t, k) => pStep t (ids.getD k 0))
+       (match steps with
+        | none => bad
+        | some plan =>
+          let c := compilePlan Ctx.empty plan
+          let model := sPart ++ "|R=" ++ toString c.nextReg ++ "," ++ toString c.consts.length ++ "|I=" ++ ",".intercalate (c.instrs.map instrText)
+          (model, "ok", "-"))
+     | _ => bad)
+  | _ => bad
+
+end plan
 
 end MechVerif.Driver.S06
